@@ -217,6 +217,20 @@ theorem relative_to_start_field_syntax (b : UInt64) (f : Dec.Parts) (hf : Dec.cl
   simp only [customText, Spec.durationString_nonneg, bind, Outcome.bind, l, ofOpt, Option.bind_some, Fmt.sprintf, fm,
     Fmt.sprintfItems, Option.map_some, List.append_nil, List.cons_append, List.nil_append]
 
+/-- every fix date between 1969 and 2068 is written DD-MON-YY,HH:MM:SS.cc (upper-case month, UTC,
+    centiseconds) -/
+theorem fixdate_field_syntax (sec : Int) (ns : Nat) (h1 : -31536000 ≤ sec) (h2 : sec ≤ 3124223999)
+    (hns : ns < 1000000000) :
+    ∃ t, dateString Spec.schema "FixDate.String" sec ns = .ok t ∧ Spec.isFixDate t = true := by
+  obtain ⟨hv, _, hn⟩ := Time.civilOf_valid sec ns h1 h2
+  have hy : ¬ (Time.civilOf sec ns).year < 0 := by have := hv.year_lo; omega
+  have hns' : (Time.civilOf sec ns).ns < 1000000000 := by rw [hn]; exact hns
+  have hasc : ((Time.formatToks (Time.civilOf sec ns) Time.fixToks).all fun c => decide (c.toNat < 128)) = true :=
+    Time.format_fix_ascii _ hv hns'
+  have lit : Spec.schema.lit "FixDate.String" 0 = some "02-Jan-06,15:04:05.00" := by decide +kernel
+  refine ⟨Time.toUpperAscii (Time.formatToks (Time.civilOf sec ns) Time.fixToks), ?_, Spec.fixdate_syntax _ hv hns'⟩
+  simp only [dateString, lit, Option.bind_some, Time.format, Time.fix_layout, hy, if_false, hasc, if_true]
+
 /-- non-vacuity / regression witness: the text that exposed `&quote;` -/
 example : unescape (replaceAll (pairsOf Spec.schema.replacer) (goEscape ['a', '"', 'b'])) = some ['a', '"', 'b'] := by
   decide
